@@ -93,7 +93,7 @@ def gen_ctor_cells(tier):
     rows = rows + [[r[0] + 0.11 * k, r[1] - 0.07 * k, r[2] + 0.05 * k] for k in range(1, 4) for r in rows]      # 20 rows
     for ct in CTORS:
         for cls in ("SO3", "SE3"):
-            for m in (1, 2, 3, 4, 5, 9, 17):
+            for m in (1, 2, 3, 4, 5, 6, 7, 8, 9, 17):          # 6, 4, 3: as many values as a twist / quaternion / vector has components
                 for unit in ("rad", "deg"):
                     for order in (ORDERS if ct == "RPY" else ["zyx"]):
                         for form in ("list", "array"):
@@ -158,9 +158,9 @@ def _ctor(case):
     else:   # Exp of a list of twists
         cls = L.SE3
         tw = [r + r[::-1] for r in rows]
-        if M == 6 or M == 1:
+        if M == 1:
             return c.out
-        multi = lambda: L.SE3.Exp([np.array(t) for t in tw])
+        multi = (lambda: L.SE3.Exp([np.array(t) for t in tw])) if case["form"] == "list" else (lambda: L.SE3.Exp(np.array(tw)))
         single = lambda i: L.SE3.Exp(np.array(tw[i]))
     ok, X = c.lib(ct + "/multi", multi)
     if not ok:
@@ -438,6 +438,15 @@ def _unary(case):
         # interpolation: M values x scalar s, and one value x vector s
         s = case["s"]
         objm("interp/scalar", lambda o: o.interp(s))
+        for s_end in (0, 1, 0.0, 1.0):                           # the end points are values of s like any other
+            objm("interp/scalar/end", lambda o, s_end=s_end: o.interp(s_end))
+        # conversions to another class keep one result per value (each an array of its own)
+        if cn == "SE2":
+            objm("SE3()", lambda o: o.SE3())
+            objm("SE3(z)", lambda o: o.SE3(0.5 + n))
+            objm("Twist2()", lambda o: o.Twist2())
+        if cn == "SE3":
+            objm("Twist3()", lambda o: o.Twist3())
         sv = case["svec"]
         ok, r = c.lib("interp/vector", lambda: singles[0].interp(sv))
         if ok:
